@@ -458,7 +458,7 @@ class HistoryTrackerInterface(interfaces.Interface):
         timeInYears = dbi.getHistory(self.r, ["time"])["time"]
 
         # remove the time step info. Clients don't want it
-        timeInYears = [t[1] for t in timeInYears]
+        timeInYears = list(timeInYears.values())
         if a:
             b = self._getBlockInAssembly(a)
             ids = dbi.getHistory(["id"])["id"]
